@@ -292,15 +292,21 @@ func runDbFault(seed uint64, cases, from int, out func(cmd, obs J), statsPath st
 			pi := r.intn(len(points))
 			if thorough {
 				pi = 0
-			} else if b == 0 {
-				// one fault of every scenario hits the creating request
-				var cr []int
+			} else if b <= 2 {
+				// three faults of every scenario hit the creating request: its commit point (the update of the datatype
+				// document fails: operation documents stay behind without a datatype), a crash at that point, and any other
+				var cr, commit []int
 				for i, p := range points {
 					if p.step == createStep {
 						cr = append(cr, i)
+						if classify(logs[p.step], p.k) == "update:-_-Datatypes" && ((b == 0) == (p.mode == "fail")) {
+							commit = append(commit, i)
+						}
 					}
 				}
-				if len(cr) > 0 {
+				if b <= 1 && len(commit) > 0 {
+					pi = commit[r.intn(len(commit))]
+				} else if len(cr) > 0 {
 					pi = cr[r.intn(len(cr))]
 				}
 			}
